@@ -209,6 +209,9 @@ func propC14(c C14Case) error {
 	if (r == nil) == (err == nil) {
 		return fmt.Errorf("%s: Parse returned (rule nil=%v, err=%v)", c.Describe(), r == nil, err)
 	}
+	for _, l := range otherRules { // the rule handed out must not depend on what is parsed afterwards
+		_, _ = flags.Parse(l)
+	}
 	// reference interpretation of the token list
 	type farg struct {
 		arg string
